@@ -1,26 +1,35 @@
 package normalize
 
-// fieldVocab lists the fields (name:type, in declaration order) of every struct type of the production closure on
-// the pinned tree; used to recognise a renamed field by its type and position. Regenerate with `mowcheck -dump @fields`.
+// fieldVocab lists the fields (name:type, in declaration order) of every struct type, and the methods of every
+// interface type, of the production closure on the pinned tree; used to recognise a renamed field or type.
+// Regenerate with `mowcheck -dump @fields`.
 var fieldVocab = map[string][]string{
 	"cli.BoolArg":          {"Name:string", "Desc:string", "EnvVar:string", "Value:bool", "HideValue:bool", "SetByUser:*bool"},
 	"cli.BoolOpt":          {"Name:string", "Desc:string", "EnvVar:string", "Value:bool", "HideValue:bool", "SetByUser:*bool"},
+	"cli.BoolParam":        {"method value:(*bool)(flag.Value,*bool)"},
 	"cli.Cli":              {"Cmd:*cli.Cmd", "version:*cli.cliVersion"},
 	"cli.Cmd":              {"Action:func()", "Before:func()", "After:func()", "Spec:string", "LongDesc:string", "Hidden:bool", "ErrorHandling:flag.ErrorHandling", "init:cli.CmdInitializer", "name:string", "aliases:[]string", "desc:string", "commands:[]*cli.Cmd", "options:[]*container.Container", "optionsIdx:map[string]*container.Container", "args:[]*container.Container", "argsIdx:map[string]*container.Container", "parents:[]string", "fsm:*fsm.State"},
 	"cli.Float64Arg":       {"Name:string", "Desc:string", "EnvVar:string", "Value:float64", "HideValue:bool", "SetByUser:*bool"},
 	"cli.Float64Opt":       {"Name:string", "Desc:string", "EnvVar:string", "Value:float64", "HideValue:bool", "SetByUser:*bool"},
+	"cli.Float64Param":     {"method value:(*float64)(flag.Value,*float64)"},
 	"cli.Floats64Arg":      {"Name:string", "Desc:string", "EnvVar:string", "Value:[]float64", "HideValue:bool", "SetByUser:*bool"},
 	"cli.Floats64Opt":      {"Name:string", "Desc:string", "EnvVar:string", "Value:[]float64", "HideValue:bool", "SetByUser:*bool"},
+	"cli.Floats64Param":    {"method value:(*[]float64)(flag.Value,*[]float64)"},
 	"cli.IntArg":           {"Name:string", "Desc:string", "EnvVar:string", "Value:int", "HideValue:bool", "SetByUser:*bool"},
 	"cli.IntOpt":           {"Name:string", "Desc:string", "EnvVar:string", "Value:int", "HideValue:bool", "SetByUser:*bool"},
+	"cli.IntParam":         {"method value:(*int)(flag.Value,*int)"},
 	"cli.IntsArg":          {"Name:string", "Desc:string", "EnvVar:string", "Value:[]int", "HideValue:bool", "SetByUser:*bool"},
 	"cli.IntsOpt":          {"Name:string", "Desc:string", "EnvVar:string", "Value:[]int", "HideValue:bool", "SetByUser:*bool"},
+	"cli.IntsParam":        {"method value:(*[]int)(flag.Value,*[]int)"},
 	"cli.StringArg":        {"Name:string", "Desc:string", "EnvVar:string", "Value:string", "HideValue:bool", "SetByUser:*bool"},
 	"cli.StringOpt":        {"Name:string", "Desc:string", "EnvVar:string", "Value:string", "HideValue:bool", "SetByUser:*bool"},
+	"cli.StringParam":      {"method value:(*string)(flag.Value,*string)"},
 	"cli.StringsArg":       {"Name:string", "Desc:string", "EnvVar:string", "Value:[]string", "HideValue:bool", "SetByUser:*bool"},
 	"cli.StringsOpt":       {"Name:string", "Desc:string", "EnvVar:string", "Value:[]string", "HideValue:bool", "SetByUser:*bool"},
+	"cli.StringsParam":     {"method value:(*[]string)(flag.Value,*[]string)"},
 	"cli.VarArg":           {"Name:string", "Desc:string", "EnvVar:string", "Value:flag.Value", "HideValue:bool", "SetByUser:*bool"},
 	"cli.VarOpt":           {"Name:string", "Desc:string", "EnvVar:string", "Value:flag.Value", "HideValue:bool", "SetByUser:*bool"},
+	"cli.VarParam":         {"method value:()(flag.Value)"},
 	"cli.cliVersion":       {"version:string", "option:*container.Container"},
 	"container.Container":  {"Name:string", "Desc:string", "EnvVar:string", "Names:[]string", "HideValue:bool", "ValueSetFromEnv:bool", "ValueSetByUser:*bool", "Value:flag.Value", "DefaultValue:string"},
 	"flow.Step":            {"Do:func()", "Success:*flow.Step", "Error:*flow.Step", "Desc:string", "Exiter:func(code int)"},
@@ -28,12 +37,16 @@ var fieldVocab = map[string][]string{
 	"fsm.Transition":       {"Matcher:matcher.Matcher", "Next:*fsm.State"},
 	"lexer.ParseError":     {"Input:string", "Msg:string", "Pos:int"},
 	"lexer.Token":          {"Typ:lexer.TokenType", "Val:string", "Pos:int"},
+	"matcher.Matcher":      {"method Match:([]string,*matcher.ParseContext)(bool,[]string)", "method Priority:()(int)"},
 	"matcher.ParseContext": {"Args:map[*container.Container][]string", "Opts:map[*container.Container][]string", "ExcludedOpts:map[*container.Container]struct{}", "RejectOptions:bool"},
 	"matcher.arg":          {"arg:*container.Container"},
 	"matcher.opt":          {"theOne:*container.Container", "index:map[string]*container.Container"},
 	"matcher.options":      {"options:[]*container.Container", "index:map[string]*container.Container"},
 	"parser.Params":        {"Spec:string", "Options:[]*container.Container", "OptionsIdx:map[string]*container.Container", "Args:[]*container.Container", "ArgsIdx:map[string]*container.Container"},
 	"parser.parser":        {"spec:string", "options:[]*container.Container", "optionsIdx:map[string]*container.Container", "args:[]*container.Container", "argsIdx:map[string]*container.Container", "tokens:[]*lexer.Token", "tkpos:int", "matchedToken:*lexer.Token", "rejectOptions:bool"},
+	"values.BoolValued":    {"method IsBoolFlag:()(bool)", "method Set:(string)(error)", "method String:()(string)"},
+	"values.DefaultValued": {"method IsDefault:()(bool)"},
+	"values.MultiValued":   {"method Clear:()()", "method Set:(string)(error)", "method String:()(string)"},
 }
 
 // FieldVocab returns the field vocabulary. Read-only.
